@@ -118,6 +118,14 @@ CHECKS.update({
     ),
 })
 
+CHECKS.update({
+    "C15": dict(
+        text="for every value of the C06 family whose plain serialization round-trips, every information-preserving rewrite (comment/PI at every position outside tags and references, blanks between markup in element-only content, text -> CDATA / two CDATA sections at every split / text+CDATA, every non-blank character -> decimal/hex reference, <x/> <-> <x></x>, attribute permutations, quote swap, blanks around =, prolog/DOCTYPE/epilog, unknown attribute, unknown first/last child) is applied at EVERY applicable site, singly and in all ordered pairs for documents up to 64/110 bytes; the rewritten document must deserialize to the same value",
+        note="character references inside attribute values that read as numbers/booleans are not applied (not listed by the property; the deserializer parses those from the raw attribute text — see DESIGN observations); unknown attributes/children only where they are not data (no maps, no $value catch-alls)",
+        technique="exhaustive enumeration of rewrite sites and rewrite pairs over a fixed document family, metamorphic oracle on the real deserializer",
+    ),
+})
+
 PENDING_REASON = "check not built yet (work in progress; see DESIGN.md §9 for the order of work)"
 
 ALL = ["C%02d" % i for i in range(1, 21)]
